@@ -84,6 +84,19 @@ func (s *Scope) Synchronized() bool {
 	return ok
 }
 
+// SynchronizeAll turns on synchronized mode for the scope and for all of its
+// ancestors that are not already synchronized. It must be called before the
+// scope becomes visible to another thread, while the calling thread is still
+// the only user of the scopes that are switched.
+func (s *Scope) SynchronizeAll() {
+	if !s.Synchronized() {
+		s.SetSynchronized(true)
+	}
+	for _, p := range s.parents {
+		p.SynchronizeAll()
+	}
+}
+
 // Lock the scope to synchronize changes.
 func (s *Scope) Lock() {
 	s.locker.Lock()
